@@ -28,6 +28,8 @@ type Prog struct {
 	litOwner map[*ast.FuncLit]*FuncInfo
 	NFuncs   int
 	NFiles   int
+
+	touched map[string]bool // when non-nil, records the functions rules ask for by name (mutation sweep anchors)
 }
 
 // FuncInfo is one declared function or method of the repository.
@@ -123,76 +125,7 @@ func loadProg(repo string, tags string, overlay map[string][]byte) *Prog {
 	}
 	sort.Slice(p.All, func(i, j int) bool { return p.All[i].PkgPath < p.All[j].PkgPath })
 	for _, pk := range p.All {
-		for _, f := range pk.Syntax {
-			p.NFiles++
-			for _, d := range f.Decls {
-				if gd, ok := d.(*ast.GenDecl); ok && gd.Tok == token.VAR {
-					// function literals in package-level variable initialisers (cobra commands...) become pseudo-functions
-					for _, sp := range gd.Specs {
-						vs, ok := sp.(*ast.ValueSpec)
-						if !ok || len(vs.Names) == 0 {
-							continue
-						}
-						k := 0
-						for _, val := range vs.Values {
-							var visit func(n ast.Node) bool
-							visit = func(n ast.Node) bool {
-								lit, ok := n.(*ast.FuncLit)
-								if !ok {
-									return true
-								}
-								sig, _ := pk.TypesInfo.TypeOf(lit).(*types.Signature)
-								if sig == nil {
-									return false
-								}
-								k++
-								name := "var." + vs.Names[0].Name + "#lit" + itoa(k)
-								obj := types.NewFunc(lit.Pos(), pk.Types, name, sig)
-								fi := &FuncInfo{ID: strings.TrimPrefix(pk.PkgPath, modPrefix) + "." + name, Obj: obj, Pkg: pk,
-									Decl: &ast.FuncDecl{Name: ast.NewIdent(name), Type: lit.Type, Body: lit.Body}}
-								ast.Inspect(lit.Body, func(m ast.Node) bool {
-									if l, ok := m.(*ast.FuncLit); ok {
-										fi.Lits = append(fi.Lits, l)
-										p.litOwner[l] = fi
-									}
-									return true
-								})
-								p.funcs[fi.ID] = fi
-								p.byObj[obj] = fi
-								p.NFuncs++
-								return false
-							}
-							ast.Inspect(val, visit)
-						}
-					}
-					continue
-				}
-				fd, ok := d.(*ast.FuncDecl)
-				if !ok {
-					continue
-				}
-				obj, _ := pk.TypesInfo.Defs[fd.Name].(*types.Func)
-				if obj == nil {
-					continue
-				}
-				fi := &FuncInfo{ID: funcID(obj), Decl: fd, Obj: obj, Pkg: pk}
-				if fd.Body != nil {
-					ast.Inspect(fd.Body, func(n ast.Node) bool {
-						if l, ok := n.(*ast.FuncLit); ok {
-							fi.Lits = append(fi.Lits, l)
-							p.litOwner[l] = fi
-						}
-						return true
-					})
-				}
-				if fd.Name.Name == "init" || fd.Name.Name == "_" {
-					continue
-				}
-				p.funcs[fi.ID] = fi
-				p.byObj[obj] = fi
-				p.NFuncs++
-			}
-		}
+		p.indexPkg(pk)
 	}
 	return p
 }
@@ -230,6 +163,9 @@ func funcID(f *types.Func) string {
 
 // Func returns the declared function with that ID or aborts as undecided (anchor vanished).
 func (p *Prog) Func(id string) *FuncInfo {
+	if p.touched != nil {
+		p.touched[id] = true
+	}
 	f := p.funcs[id]
 	if f == nil {
 		undecided("anchor function %q not found in %s (renamed or removed: the rule cannot be applied)", id, p.RepoDir)
@@ -237,7 +173,12 @@ func (p *Prog) Func(id string) *FuncInfo {
 	return f
 }
 
-func (p *Prog) FuncOpt(id string) *FuncInfo { return p.funcs[id] }
+func (p *Prog) FuncOpt(id string) *FuncInfo {
+	if p.touched != nil {
+		p.touched[id] = true
+	}
+	return p.funcs[id]
+}
 
 func (p *Prog) Pkg(rel string) *packages.Package {
 	pk := p.Pkgs[rel]
@@ -364,4 +305,79 @@ func isErrorType(t types.Type) bool {
 	}
 	nt, ok := t.(*types.Named)
 	return ok && nt.Obj().Pkg() == nil && nt.Obj().Name() == "error"
+}
+
+// indexPkg registers the declared functions (and package-level function literals) of one package.
+func (p *Prog) indexPkg(pk *packages.Package) {
+	for _, f := range pk.Syntax {
+		p.NFiles++
+		for _, d := range f.Decls {
+			if gd, ok := d.(*ast.GenDecl); ok && gd.Tok == token.VAR {
+				// function literals in package-level variable initialisers (cobra commands...) become pseudo-functions
+				for _, sp := range gd.Specs {
+					vs, ok := sp.(*ast.ValueSpec)
+					if !ok || len(vs.Names) == 0 {
+						continue
+					}
+					k := 0
+					for _, val := range vs.Values {
+						var visit func(n ast.Node) bool
+						visit = func(n ast.Node) bool {
+							lit, ok := n.(*ast.FuncLit)
+							if !ok {
+								return true
+							}
+							sig, _ := pk.TypesInfo.TypeOf(lit).(*types.Signature)
+							if sig == nil {
+								return false
+							}
+							k++
+							name := "var." + vs.Names[0].Name + "#lit" + itoa(k)
+							obj := types.NewFunc(lit.Pos(), pk.Types, name, sig)
+							fi := &FuncInfo{ID: strings.TrimPrefix(pk.PkgPath, modPrefix) + "." + name, Obj: obj, Pkg: pk,
+								Decl: &ast.FuncDecl{Name: ast.NewIdent(name), Type: lit.Type, Body: lit.Body}}
+							ast.Inspect(lit.Body, func(m ast.Node) bool {
+								if l, ok := m.(*ast.FuncLit); ok {
+									fi.Lits = append(fi.Lits, l)
+									p.litOwner[l] = fi
+								}
+								return true
+							})
+							p.funcs[fi.ID] = fi
+							p.byObj[obj] = fi
+							p.NFuncs++
+							return false
+						}
+						ast.Inspect(val, visit)
+					}
+				}
+				continue
+			}
+			fd, ok := d.(*ast.FuncDecl)
+			if !ok {
+				continue
+			}
+			obj, _ := pk.TypesInfo.Defs[fd.Name].(*types.Func)
+			if obj == nil {
+				continue
+			}
+			fi := &FuncInfo{ID: funcID(obj), Decl: fd, Obj: obj, Pkg: pk}
+			if fd.Body != nil {
+				ast.Inspect(fd.Body, func(n ast.Node) bool {
+					if l, ok := n.(*ast.FuncLit); ok {
+						fi.Lits = append(fi.Lits, l)
+						p.litOwner[l] = fi
+					}
+					return true
+				})
+			}
+			if fd.Name.Name == "init" || fd.Name.Name == "_" {
+				continue
+			}
+			p.funcs[fi.ID] = fi
+			p.byObj[obj] = fi
+			p.NFuncs++
+		}
+	}
+
 }
